@@ -12,7 +12,7 @@
 From Coq Require Import ZArith List Arith Bool String Lia.
 From Flocq Require Import IEEE754.BinarySingleNaN.
 From CF Require Import Base.Mem Model.Tables Model.Prim Model.SimdApi Model.Kernels Model.Regs Model.Intrinsics Model.RegTable.
-From CF Require Import Gen.GenRegs Gen.GenRegsGoals.
+From CF Require Import Gen.GenRegs Gen.GenRegsGoals_Fallback Gen.GenRegsGoals Gen.GenRegsGoals_Avx2_u8 Gen.GenRegsGoals_Neon_i8.
 From CF Require Import Proofs.ReduceCorrect Proofs.IntReduce Proofs.IntBackends Proofs.BackendTable
      Proofs.IntrinsicsFacts Proofs.GenRegsSpec.
 Import ListNotations.
@@ -29,13 +29,13 @@ Proof. intros H. exact (proj1 (Forall_forall _ _) gen_regs_refine e H). Qed.
 (* the keys *)
 Definition fb_key (e : rmeth * fb_def) : string * string * string := ("Fallback", "T", rmeth_name (fst e))%string.
 
-Theorem gen_table_keys : map fb_key gen_fallback_table ++ map entry_key gen_reg_table = gen_reg_methods.
-Proof. vm_compute. reflexivity. Qed.
+Theorem gen_table_keys : (map fb_key gen_fallback_table ++ map entry_key gen_reg_table)%list = gen_reg_methods.
+Proof. reflexivity. Qed.
 
 Theorem gen_counts :
-  Z.of_nat (length gen_fallback_table + length gen_reg_table) = snd gen_reg_counts
-  /\ Z.of_nat (length gen_reg_methods + length gen_reg_untranslated) = fst gen_reg_counts.
-Proof. vm_compute. split; reflexivity. Qed.
+  Z.of_nat (List.length gen_fallback_table + List.length gen_reg_table) = snd gen_reg_counts
+  /\ Z.of_nat (List.length gen_reg_methods + List.length gen_reg_untranslated) = fst gen_reg_counts.
+Proof. split; reflexivity. Qed.
 
 (* coverage of the priority list *)
 Definition rmeth_eqb (a b : rmeth) : bool := String.eqb (rmeth_name a) (rmeth_name b).
@@ -55,18 +55,18 @@ Definition covered (r : reg) (ts : list ty) (ms : list rmeth) : bool :=
   forallb (fun t => forallb (has_entry r t) ms) ts.
 
 Theorem gen_priority_covered :
-  (* (a) AVX2 integers *)            covered Avx2 int_tys lane_methods = true
-  (* (b) AVX2 / AVX2+FMA floats *)   /\ covered Avx2 float_tys (MDiv :: MDivDense :: lane_methods) = true
-                                     /\ covered Avx2Fma float_tys (MDiv :: MDivDense :: lane_methods) = true
-                                     /\ covered Avx2 [F32] [MSumToValue] = true
-  (* (c) AVX-512 *)                  /\ covered Avx512 int_tys lane_methods = true
-                                     /\ covered Avx512 float_tys (MDiv :: MDivDense :: lane_methods ++ fold_methods) = true
-                                     /\ covered Avx512 [I32; I64; U32; U64] fold_methods = true
-  (* (d) NEON *)                     /\ covered Neon [I8; I16; I32; U8; U16; U32] (lane_methods ++ fold_methods) = true
-                                     /\ covered Neon float_tys (MDiv :: MDivDense :: lane_methods ++ fold_methods) = true
+  (* (a) AVX2 integers *)            covered Avx2 int_tys (lane_methods ++ fold_methods)%list = true
+  (* (b) AVX2 / AVX2+FMA floats *)   /\ covered Avx2 float_tys (MDiv :: MDivDense :: MMaxToValue :: MMinToValue :: lane_methods) = true
+                                     /\ covered Avx2Fma float_tys (MDiv :: MDivDense :: MMaxToValue :: MMinToValue :: lane_methods) = true
+                                     /\ covered Avx2 [F32] [MSumToValue] = true /\ covered Avx2Fma [F32] [MSumToValue] = true
+  (* (c) AVX-512 *)                  /\ covered Avx512 int_tys (lane_methods ++ fold_methods)%list = true
+                                     /\ covered Avx512 float_tys (MDiv :: MDivDense :: lane_methods ++ fold_methods)%list = true
+  (* (d) NEON *)                     /\ covered Neon [I8; I16; I32; U8; U16; U32] (lane_methods ++ fold_methods)%list = true
+                                     /\ covered Neon float_tys (MDiv :: MDivDense :: lane_methods ++ fold_methods)%list = true
                                      /\ covered Neon [I64; U64]
-                                          [MFilled; MZeroed; MAdd; MSub; MAddDense; MSubDense; MSumToValue; MSumToRegister] = true.
-Proof. vm_compute. repeat split; reflexivity. Qed.
+                                          (MFilled :: MZeroed :: MAdd :: MSub :: MAddDense :: MSubDense :: MSumToRegister :: fold_methods) = true
+  (* (e) Fallback *)                 /\ List.length gen_fallback_table = 22.
+Proof. repeat split; reflexivity. Qed.
 
 Lemma has_entry_In r t m : has_entry r t m = true -> exists g, In (r, t, m, g) gen_reg_table.
 Proof.
@@ -91,14 +91,12 @@ Qed.
 
 (* the emulated AVX2 u8 multiply: mullo_epi16 / srai_epi16 / slli_epi16 / blendv_epi8, from the bytes of the source *)
 Theorem gen_avx2_u8_mul :
-  forall x y, length x = 32 -> length y = 32 -> Forall (in_range 8) x -> Forall (in_range 8) y ->
+  forall x y, List.length x = 32 -> List.length y = 32 -> Forall (in_range 8) x -> Forall (in_range 8) y ->
     lanes_of 8 (gen_Avx2_u8_mul (bytes_of 8 x) (bytes_of 8 y)) = r_mul (avx2_int_ops false 8) x y
     /\ lanes_of 8 (gen_Avx2_u8_mul (bytes_of 8 x) (bytes_of 8 y)) = map2 (i_mul 8) x y.
 Proof.
   intros x y Lx Ly Fx Fy.
-  assert (Hin : In (Avx2, U8, MMul, GI (D_vvv gen_Avx2_u8_mul)) gen_reg_table) by (vm_compute; tauto).
-  pose proof (gen_entry_goal _ Hin) as G. cbn [entry_goal] in G.
-  destruct G as [_ G]. cbv beta iota delta [method_goal bin_goal] in G.
+  destruct gen_Avx2_u8_mul_ok as [_ G]. cbv beta iota delta [method_goal bin_goal] in G.
   assert (E : lanes_of 8 (gen_Avx2_u8_mul (bytes_of 8 x) (bytes_of 8 y)) = r_mul (avx2_int_ops false 8) x y)
     by (apply G; split; assumption).
   split; [exact E|]. rewrite E.
@@ -115,12 +113,10 @@ Qed.
 
 (* NEON i8 add straight against the scalar specification *)
 Theorem gen_neon_i8_add :
-  forall x y, length x = 16 -> length y = 16 -> Forall (in_range 8) x -> Forall (in_range 8) y ->
+  forall x y, List.length x = 16 -> List.length y = 16 -> Forall (in_range 8) x -> Forall (in_range 8) y ->
     lanes_of 8 (gen_Neon_i8_add (bytes_of 8 x) (bytes_of 8 y)) = map2 (i_add 8) x y.
 Proof.
   intros x y Lx Ly Fx Fy.
-  assert (Hin : In (Neon, I8, MAdd, GI (D_vvv gen_Neon_i8_add)) gen_reg_table) by (vm_compute; tauto).
-  pose proof (gen_entry_goal _ Hin) as G. cbn [entry_goal] in G.
-  destruct G as [_ G]. cbv beta iota delta [method_goal bin_goal] in G.
+  destruct gen_Neon_i8_add_ok as [_ G]. cbv beta iota delta [method_goal bin_goal] in G.
   apply (G x y); split; assumption.
 Qed.
